@@ -213,6 +213,8 @@ func (m *Model) NumAlive() int {
 	return n
 }
 
+func (m *Model) alive(s int) bool { return s >= 0 && s < len(m.Ents) && m.Ents[s].Alive }
+
 func (m *Model) targetOK(t int) bool {
 	return t == -1 || (t >= 0 && t < len(m.Ents) && m.Ents[t].Alive)
 }
